@@ -185,6 +185,7 @@ func (css *Consensus) setup() {
 	)
 	if err != nil {
 		logger.Errorf("error registering topic validator: %s", err)
+		return
 	}
 
 	broadcaster, err := crdt.NewPubSubBroadcaster(
